@@ -8,13 +8,14 @@ import Hertz.Driver.C05
 import Hertz.Driver.C06
 import Hertz.Driver.C08
 import Hertz.Driver.C10
+import Hertz.Driver.C11
 import Hertz.Driver.C12
 import Hertz.Driver.C13
 import Hertz.Driver.C14
 import Hertz.Driver.C20
 open Hertz.Driver
 
-def handlers : List Handler := [C17.handle, C07.handle, H1.handle, C04.handle, C05.handle, C06.handle, C08.handle, C10.handle, C12.handle, C13.handle, C14.handle, C20.handle]
+def handlers : List Handler := [C17.handle, C07.handle, H1.handle, C04.handle, C05.handle, C06.handle, C08.handle, C10.handle, C11.handle, C12.handle, C13.handle, C14.handle, C20.handle]
 
 def dispatch (args impl : List String) : Option Result :=
   handlers.firstM (fun h => h args impl)
